@@ -250,6 +250,10 @@ pub fn addr_variants() -> Vec<(&'static str, Option<AddrF>)> {
         ("v6both", af(vec![v6("2001:db8::1")], true, true)),
         ("v6dst", af(vec![v6("2001:db8::1"), v6("::")], false, true)),
         ("mixed", af(vec![v4(10, 255, 255, 255), v6("2001:db8::ffff")], true, true)),
+        // addresses of ::/96 and ::ffff:0:0/96 are IPv6 addresses like any other: they neither
+        // match nor are matched by the IPv4 address embedded in them
+        ("v6-low96", af(vec![v6("::1"), v6("::ffff:192.168.1.1"), v6("::10.0.0.0")], true, true)),
+        ("v4+mapped", af(vec![v4(192, 168, 1, 1), v6("::ffff:10.0.0.0")], true, true)),
         ("emptylist", af(vec![], true, true)),
     ]
 }
@@ -269,6 +273,9 @@ pub fn net_variants() -> Vec<(&'static str, Option<NetF>)> {
         ("2001:db8::1/128", nf(vec![(v6("2001:db8::1"), 128)], true, true)),
         ("2001:db8::/127dst", nf(vec![(v6("2001:db8::"), 127)], false, true)),
         ("mixed/1", nf(vec![(v4(128, 0, 0, 0), 1), (v6("8000::"), 1)], true, true)),
+        ("2001:db8::1/64hostbits", nf(vec![(v6("2001:db8::1"), 64)], true, true)),
+        ("192.168.1.1/24hostbits-dst", nf(vec![(v4(192, 168, 1, 1), 24)], false, true)),
+        ("::ffff:0:0/96", nf(vec![(v6("::ffff:0:0"), 96)], true, true)),
         ("emptylist", nf(vec![], true, true)),
     ]
 }
@@ -291,6 +298,7 @@ pub fn addrs_v4() -> Vec<IpAddr> {
         v4(172, 16, 0, 0),
         v4(172, 32, 0, 0),
         v4(0, 0, 0, 0),
+        v4(0, 0, 0, 1),
         v4(255, 255, 255, 255),
         v4(127, 255, 255, 255),
         v4(128, 0, 0, 0),
@@ -308,6 +316,11 @@ pub fn addrs_v6() -> Vec<IpAddr> {
         v6("8000::"),
         v6("7fff:ffff:ffff:ffff:ffff:ffff:ffff:ffff"),
         v6("2001:db8::ffff"),
+        v6("::1"),
+        v6("::ffff:192.168.1.1"),
+        v6("::ffff:10.0.0.0"),
+        v6("::10.0.0.0"),
+        v6("::0.0.0.1"),
     ]
 }
 
